@@ -204,16 +204,59 @@ func runRedirect(c *mc.Ctx, r *mc.Result) {
 	rec("/", 1)
 }
 
+// runSequences: CleanPath is a function of its argument alone, whatever was cleaned before: every ordered pair
+// of calls over a pool of inputs around and above the stack-buffer size (rooted and not, clean and not, lengths
+// L and L+1 next to each other), the second answer compared with the reference.
+func runSequences(c *mc.Ctx, r *mc.Result) {
+	var pool []string
+	for _, n := range []int{5, 100, 126, 127, 128, 129, 130, 131, 132, 133, 200, 201, 202, 255, 256, 257, 258} {
+		pad := strings.Repeat("a", n)
+		pool = append(pool, "/"+pad[1:], pad, "/a//"+pad[4:], "a/./"+pad[4:], pad[:n-3]+"/..", "/"+pad[:n-2]+"/", "//"+pad[2:])
+	}
+	r.Bounds["sequences"] = fmt.Sprintf("every ordered pair of CleanPath calls over %d inputs of 5..258 bytes (7 shapes x 17 lengths)", len(pool))
+	idx := 0
+	for _, p1 := range pool {
+		idx++
+		if !c.Mine(idx) {
+			continue
+		}
+		for _, p2 := range pool {
+			func() {
+				defer func() { recover() }()
+				fox.CleanPath(p1)
+			}()
+			class, msg := checkOne(p2)
+			r.Evaluations++
+			r.DistinctNontrivial++
+			if class != "" {
+				r.Violate("sequences", class, fmt.Sprintf("after CleanPath of a %d-byte input %.12q…: %s", len(p1), p1, msg), []string{p1, p2})
+			}
+		}
+	}
+}
+
 func init() {
 	mc.Register(&mc.Check{
 		ID:    "C17",
 		Level: "exploration",
-		Rule: "every string up to a length over the alphabet {'/', '.', 'a', '%', 'é'} (complete enumeration), plus core strings embedded in paddings crossing the 128-byte stack buffer, compared with a split-and-stack reference, checked for idempotence and crash-freedom; plus every short path served by redirecting routers (a 301 implies a clean path); " +
+		Rule: "every string up to a length over the alphabet {'/', '.', 'a', '%', 'é'} (complete enumeration), plus core strings embedded in paddings crossing the 128-byte stack buffer, compared with a split-and-stack reference, checked for idempotence and crash-freedom; every ordered pair of calls over long inputs (the answer does not depend on earlier calls); plus every short path served by redirecting routers (a 301 implies a clean path); " +
 			"non-trivial = the input contains an empty or dot element or is not rooted; 301 answers for the redirect part",
 		Assumptions: []string{"reference CleanPath (strings.Split + stack) written from the statement"},
 		Parts: []mc.Part{
 			{Name: "strings", Run: runStrings, Replay: replay},
 			{Name: "boundary", Run: runBoundary, Replay: replay},
+			{Name: "sequences", Run: runSequences, Replay: func(c *mc.Ctx, raw json.RawMessage) string {
+				var ps []string
+				if err := json.Unmarshal(raw, &ps); err != nil || len(ps) != 2 {
+					return "bad case"
+				}
+				func() {
+					defer func() { recover() }()
+					fox.CleanPath(ps[0])
+				}()
+				_, msg := checkOne(ps[1])
+				return msg
+			}},
 			{Name: "redirect", Run: runRedirect, Replay: func(c *mc.Ctx, raw json.RawMessage) string {
 				r := mc.NewResult()
 				cc := *c
